@@ -59,6 +59,8 @@ func c15Handler(name string) *svc.Program {
 		return &svc.Program{Steps: []svc.Step{{Op: "send", Msg: &gen.Msg{Id: 71}}, {Op: "waitctx"}}, ReturnCtxErr: true}
 	case "recv-wait":
 		return &svc.Program{Steps: []svc.Step{{Op: "recv"}, {Op: "waitctx"}}, ReturnCtxErr: true}
+	case "send3-wait": // three messages at once, then wait for the cancellation
+		return &svc.Program{Steps: []svc.Step{{Op: "send", Msg: &gen.Msg{Id: 71}}, {Op: "send", Msg: &gen.Msg{Id: 72}}, {Op: "send", Msg: &gen.Msg{Id: 73}}, {Op: "waitctx"}}, ReturnCtxErr: true}
 	}
 	panic(name)
 }
@@ -91,6 +93,9 @@ func c15Cases(run *ev.Run) []c15Case {
 			add(true, p, svc.Bidi, "send1-wait", "inside-blocked-CloseResponse", []string{"S", "HOOK:CP"}, dl)
 			add(true, p, svc.Bidi, "send1-wait", "inside-blocked-Receive-after-CloseRequest", []string{"S", "CR", "R", "HOOK:R", "R", "CP"}, dl)
 			add(true, p, svc.Bidi, "server-side", "handler-context-ends", []string{"S", "CR", "Rall", "CP"}, dl)
+			// several messages have arrived (P60: and sit wherever the client keeps
+			// what it has read) when the first is received; then the instant
+			add(true, p, svc.Bidi, "send3-wait", "after-first-of-three-arrived-messages", []string{"S", "P60", "R", "X", "R", "R", "CR", "CP"}, dl)
 			for _, h2 := range []bool{false, true} {
 				// --- unary
 				add(h2, p, svc.Unary, "recv-wait", "before-call", []string{"X", "CALL"}, dl)
@@ -105,6 +110,7 @@ func c15Cases(run *ev.Run) []c15Case {
 				add(h2, p, svc.ServerStream, "send1-wait", "before-call", []string{"X", "CALL", "R", "CP"}, dl)
 				add(h2, p, svc.ServerStream, "send1-wait", "after-call", []string{"CALL", "X", "R", "R", "CP"}, dl)
 				add(h2, p, svc.ServerStream, "send1-wait", "after-first-message", []string{"CALL", "R", "X", "R", "R", "CP"}, dl)
+				add(h2, p, svc.ServerStream, "send3-wait", "after-first-of-three-arrived-messages", []string{"CALL", "P60", "R", "X", "R", "R", "CP"}, dl)
 				add(h2, p, svc.ServerStream, "send1-wait", "inside-blocked-Receive", []string{"CALL", "R", "HOOK:R", "R", "CP"}, dl)
 				add(h2, p, svc.ServerStream, "partial", "inside-blocked-Receive-mid-message", []string{"CALL", "HOOK:R", "R", "CP"}, dl)
 				add(h2, p, svc.ServerStream, "send1-wait", "inside-blocked-Close", []string{"CALL", "HOOK:CP"}, dl)
@@ -204,7 +210,7 @@ func (i ctxSwapIcept) WrapStreamingHandler(next connect.StreamingHandlerFunc) co
 }
 
 func c15(run *ev.Run) int {
-	run.SetRule("instants = cancellation or deadline expiry before every operation of a bidi base program, before/between/after the operations of the typed unary, client-stream and server-stream APIs, and - triggered from a second goroutine once the operation has been blocked for 60 ms - inside a blocked Send (peer not reading), Receive (peer waiting; also mid-message with only part of an envelope delivered, mid-prefix with two of the five prefix bytes delivered, and while draining a message above the read limit), CloseAndReceive, unary call and CloseResponse; and inside the library: at the n-th time (n=1, thorough 1..3) the HTTP call reaches each of its 8 instrumented yield points (before the pipe write, closing the write side, before/after the HTTP round trip, after response validation, before a body read, before the drain in CloseResponse, before SetError closes the pipe), one case at a time; x 3 protocols x HTTP/1.1 + HTTP/2 x {cancel, deadline} x {the application's context, a context installed by a client interceptor}; handlers block on their own ctx.Done() so they are still running at the instant; plus calls a peer announces with a timeout of zero (every unit) while its own context is alive; oracle: every operation failing after the instant has code canceled / deadline_exceeded (Send may return an error wrapping io.EOF), Receive never ends cleanly, unary never succeeds, handler context done (HTTP/2), every op returns (watchdog); distinct by (HTTP version, protocol, kind, instant, mode)")
+	run.SetRule("instants = cancellation or deadline expiry before every operation of a bidi base program, before/between/after the operations of the typed unary, client-stream and server-stream APIs, and - triggered from a second goroutine once the operation has been blocked for 60 ms - inside a blocked Send (peer not reading), Receive (peer waiting; also mid-message with only part of an envelope delivered, mid-prefix with two of the five prefix bytes delivered, and while draining a message above the read limit), CloseAndReceive, unary call and CloseResponse; and inside the library: at the n-th time (n=1, thorough 1..3) the HTTP call reaches each of its 8 instrumented yield points (before the pipe write, closing the write side, before/after the HTTP round trip, after response validation, before a body read, before the drain in CloseResponse, before SetError closes the pipe), one case at a time; x 3 protocols x HTTP/1.1 + HTTP/2 x {cancel, deadline} x {the application's context, a context installed by a client interceptor}; handlers block on their own ctx.Done() so they are still running at the instant; plus calls a peer announces with a timeout of zero (every unit) while its own context is alive; oracle: every operation failing after the instant has code canceled / deadline_exceeded (Send may return an error wrapping io.EOF), Receive never ends cleanly and - called after an instant the program itself produced - never delivers a message, unary never succeeds, handler context done (HTTP/2), every op returns (watchdog); distinct by (HTTP version, protocol, kind, instant, mode)")
 	run.Assume("on HTTP/1.1 net/http propagates a client disconnect to the handler context only after the request body was read; the handler-context clause is enforced on HTTP/2 and counted when observed on HTTP/1.1")
 	reg := svc.NewRegistry()
 	hs := svc.Handlers(reg)
@@ -440,9 +446,17 @@ func c15Run(run *ev.Run, srv *svc.Server, c c15Case) {
 	// judge every operation that started after the instant, and the operation
 	// that was in flight at the instant
 	sendEOF := false
-	for _, o := range cr.Ops {
+	for oi, o := range cr.Ops {
 		if o.Op == "X" || o.Op == "WH" || o.After.Before(at) {
 			continue
+		}
+		if o.Err == nil && o.Op == "R" && cr.CancelIdx >= 0 && oi > cr.CancelIdx+1 {
+			// The program itself ended the context (synchronously) before it
+			// called this Receive: "never success". Every read of the library
+			// checks the context first, so messages that had already arrived are
+			// not handed out any more either.
+			run.Violation(key+"/receive-after-instant", "a Receive called after the context was done delivered a message", detail)
+			return
 		}
 		if o.Err == nil {
 			// still succeeding on buffered data is not a refutation - except for
